@@ -23,17 +23,17 @@ func Alphabet(M uint64) []g.Instruction {
 		ins(g.SPL, g.B, D, 0, D, 0, M),   // split onto itself
 		ins(g.JMP, g.B, D, 0, D, 0, M),   // stays forever
 		ins(g.MOV, g.I, D, 0, D, 1, M),   // imp
-		ins(g.SPL, g.B, D, 1, D, 0, M),   // split forward
+		ins(g.SEQ, g.I, D, 0, D, 1, M),   // skip (taken when followed by a copy of itself)
 		ins(g.JMP, g.B, D, -1, D, 0, M),  // loop back
+		ins(g.SPL, g.B, D, 1, D, 0, M),   // split forward
 		ins(g.NOP, g.B, D, 0, D, 0, M),   // fall through
 		ins(g.MOV, g.I, D, 2, P, -1, M),  // bomb behind with pre-decrement
 		ins(g.SPL, g.B, D, -1, D, 0, M),  // split backwards
 		ins(g.DJN, g.B, D, 0, I, 2, M),   // counts itself down
 		ins(g.DIV, g.AB, I, 0, D, 1, M),  // death by division
 		ins(g.MOV, g.I, D, 1, D, 3, M),   // bomb ahead
-		ins(g.JMP, g.B, D, 1, D, 0, M),   // jump forward
 		ins(g.JMZ, g.B, D, -1, D, 1, M),  // conditional loop
-		ins(g.SEQ, g.I, D, 0, D, 1, M),   // skip
+		ins(g.SNE, g.B, I, 0, D, 0, M),   // skip on a non-zero B-field
 		ins(g.ADD, g.AB, I, 1, D, -1, M), // modifies the previous cell
 	}
 }
@@ -307,8 +307,8 @@ func Run(rep *hx.Report, props Props, tier string, sh hx.Shard, deadline time.Ti
 			r.configs(true)
 			rep.Bound += "; boundary product of all 7 configuration fields x 3 modes (241920 configurations): creation errors or a hostile 3-warrior battle of min(cycles,40) cycles under the invariants"
 		} else {
-			rep.Bound = "every one-instruction warrior (7616 forms x 2 field pairs) against 12 hostile programs, M=8, P in {1,2}, offsets {1,4,7}, 30 cycles, invariants after every cycle"
-			r.hostileProduct(8, []uint64{1, 2}, [][2]uint64{{1, 7}, {0, 3}}, []uint64{1, 4, 7})
+			rep.Bound = "every one-instruction warrior (7616 forms x 2 field pairs) against 12 hostile programs, M=8, P in {1,3}, offsets {1,4,7}, 30 cycles, invariants after every cycle"
+			r.hostileProduct(8, []uint64{1, 3}, [][2]uint64{{1, 7}, {0, 3}}, []uint64{1, 4, 7})
 			r.configs(false)
 			rep.Bound += "; boundary product of the configuration fields x 3 modes with the 2^20 core/process values on a diagonal only"
 		}
